@@ -18,6 +18,7 @@ import (
 	"sort"
 	"strconv"
 	"strings"
+	"time"
 
 	"github.com/smart-core-os/sc-golang/verifharness/lib"
 )
@@ -216,7 +217,7 @@ func scriptKey(s Script) string {
 type refEntry struct {
 	msg    string
 	exact  bool // stored change time known exactly (write time given, or an initial record)
-	t      int
+	t      string
 	lo, hi int // otherwise: a clock reading within [lo, hi) (== lo for a fixed clock)
 }
 
@@ -237,13 +238,13 @@ func newWriterLog(cfg Cfg) *writerLog {
 	w := &writerLog{cfg: cfg, ref: map[string]refEntry{}, subs: map[string]*subState{}}
 	if cfg.Kind == "val" {
 		if len(cfg.Init) > 0 && cfg.Init[0] != "nil" {
-			w.val = &refEntry{msg: cfg.Init[0], exact: true}
+			w.val = &refEntry{msg: cfg.Init[0], exact: true, t: "0"}
 		}
 	} else {
 		for _, rec := range cfg.Init {
 			p := strings.SplitN(rec, "~", 2)
 			if _, dup := w.ref[p[0]]; !dup {
-				w.ref[p[0]] = refEntry{msg: p[1], exact: true}
+				w.ref[p[0]] = refEntry{msg: p[1], exact: true, t: "0"}
 			}
 		}
 	}
@@ -281,9 +282,13 @@ func (w *writerLog) icpt(id string) string {
 }
 
 // timeOK: the change time of an event / the stored time of an item
-func (e refEntry) timeOK(t int) bool {
+func (e refEntry) timeOK(ts string) bool {
 	if e.exact {
-		return t == e.t
+		return ts == e.t // a given write time is THE change time, whatever instant it is
+	}
+	t, err := strconv.Atoi(ts)
+	if err != nil {
+		return false
 	}
 	return (t >= e.lo && t < e.hi) || (e.lo == e.hi && t == e.lo)
 }
@@ -441,7 +446,7 @@ func (w *writerLog) checkSub(m *lib.Monitor, in map[string]any, sig string, op O
 		}
 		f := strings.Split(got[0], "|")
 		want := proj(w.val.msg, st.rm)
-		t, _ := strconv.Atoi(f[1])
+		t := f[1]
 		switch {
 		case f[0] != want:
 			m.Violate(sig+"/seed/wrong-value", "seed value is not the (projected) current value", in, want, f[0])
@@ -465,7 +470,7 @@ func (w *writerLog) checkSub(m *lib.Monitor, in map[string]any, sig string, op O
 	for k, id := range ids {
 		f := strings.Split(got[k], "|")
 		e := w.ref[id]
-		t, _ := strconv.Atoi(f[1])
+		t := f[1]
 		wantFlags := "S"
 		if k == len(ids)-1 {
 			wantFlags = "SL"
@@ -491,7 +496,7 @@ func (w *writerLog) applyWrite(m *lib.Monitor, in map[string]any, op Op, o obs) 
 	ent := refEntry{lo: o.clk0, hi: o.clk1}
 	if v, ok := op.opt("wt"); ok {
 		ent.exact = true
-		ent.t, _ = strconv.Atoi(v)
+		ent.t = v
 	}
 	evTime := ent      // event time obeys the same rule as the stored time
 	var exp *[5]string // id, kind, old, new (unprojected) of the one expected event; nil = none
@@ -575,7 +580,7 @@ func (w *writerLog) checkDeliveries(m *lib.Monitor, in map[string]any, sig strin
 		}
 		f := strings.Split(got[0], "|")
 		if w.cfg.Kind == "val" {
-			t, _ := strconv.Atoi(f[1])
+			t := f[1]
 			switch {
 			case f[0] != want[0]:
 				m.Violate(sig+"/wrong-new", "event value is not the (projected) result returned to the writer", in, want[0], f[0])
@@ -586,7 +591,7 @@ func (w *writerLog) checkDeliveries(m *lib.Monitor, in map[string]any, sig strin
 			}
 			continue
 		}
-		t, _ := strconv.Atoi(f[1])
+		t := f[1]
 		wf := strings.Split(want[0], "|")
 		switch {
 		case f[0] != wf[0]:
@@ -610,6 +615,16 @@ func (w *writerLog) checkDeliveries(m *lib.Monitor, in map[string]any, sig strin
 
 func fixedScripts() []Script {
 	return []Script{
+		// boundary write times: the zero time.Time, the Unix epoch, before the epoch - live event and later seed
+		{Cfg: Cfg{Kind: "coll", Tick: 1}, Ops: []Op{
+			{Op: "sub", Opts: []string{"name=k1"}}, {Op: "add", ID: "a", Msg: "1//-", Opts: []string{"wt=" + zeroInstant}},
+			{Op: "upd", ID: "a", Msg: "2//-", Opts: []string{"wt=" + showTime(time.Unix(0, 0))}}, {Op: "sub", Opts: []string{"name=k2"}},
+			{Op: "upd", ID: "a", Msg: "3//-", Opts: []string{"wt=" + zeroInstant}}, {Op: "sub", Opts: []string{"name=k3"}},
+			{Op: "add", ID: "b", Msg: "1//-", Opts: []string{"wt=" + showTime(time.Unix(-5, 7))}}, {Op: "sub", Opts: []string{"name=k4", "rm=a"}}}},
+		{Cfg: Cfg{Kind: "val", Tick: 1, Init: []string{"1//-"}}, Ops: []Op{
+			{Op: "sub", Opts: []string{"name=k1"}}, {Op: "vset", Msg: "2//-", Opts: []string{"wt=" + zeroInstant}},
+			{Op: "sub", Opts: []string{"name=k2"}}, {Op: "vset", Msg: "3//-", Opts: []string{"wt=" + showTime(time.Unix(1<<40, 0))}},
+			{Op: "sub", Opts: []string{"name=k3"}}}},
 		{Cfg: Cfg{Kind: "coll", Tick: 1, Init: []string{"b~1/x/-", "a~2//3"}}, Ops: []Op{
 			{Op: "sub", Opts: []string{"name=k1"}}, {Op: "add", ID: "c", Msg: "1//-"}, {Op: "add", ID: "c", Msg: "2//-"},
 			{Op: "upd", ID: "c", Msg: "5//-", Opts: []string{"wt=40"}}, {Op: "del", ID: "c"}, {Op: "add", ID: "c", Msg: "7//-"},
